@@ -23,7 +23,8 @@ from concurrent.futures import ThreadPoolExecutor
 
 ROOT = os.path.dirname(os.path.dirname(os.path.abspath(__file__)))
 REPO = os.environ.get('VERIF_REPO', '/repo')
-BUILD = os.path.join(ROOT, 'build')
+BUILD = os.environ.get('VERIF_BUILD', os.path.join(ROOT, 'build'))
+EVID = os.environ.get('VERIF_EVIDENCE_DIR', os.path.join(ROOT, 'evidence'))
 NCPU = min(16, os.cpu_count() or 4)
 
 PROP_BITS = ["C01", "C02", "C03", "C04", "C05", "C06", "C07", "C08", "C09", "C13", "C14", "C15", "C16", "C17", "C20"]
@@ -73,11 +74,11 @@ def log(*a):
     print(*a, file=sys.stderr, flush=True)
 
 
-def build():
+def build(targets=('simH',)):
     os.makedirs(BUILD, exist_ok=True)
     with open(os.path.join(BUILD, '.lock'), 'w') as lk:
         fcntl.flock(lk, fcntl.LOCK_EX)
-        r = subprocess.run(['make', '-C', ROOT, '-j%d' % NCPU, 'VERIF_REPO=' + REPO], stdout=subprocess.PIPE, stderr=subprocess.STDOUT, text=True)
+        r = subprocess.run(['make', '-C', ROOT, '-j%d' % NCPU, 'VERIF_REPO=' + REPO, 'B=' + BUILD] + [os.path.join(BUILD, t) for t in targets], stdout=subprocess.PIPE, stderr=subprocess.STDOUT, text=True)
         if r.returncode != 0:
             log(r.stdout[-6000:])
             log('HARNESS: build failed (the simulator world does not compile against the current headers)')
@@ -131,6 +132,8 @@ def classify_crash(stderr):
         kind = 'assert'
     frame, ffile = '', ''
     for m in re.finditer(r'#\d+ 0x[0-9a-f]+ in (.+?) (/[^\s:]+):(\d+)', stderr):
+        if ('cshape_' in m.group(1) and m.group(2).startswith(os.path.join(ROOT, 'sim') + '/')) or '/build/gen/' in m.group(2):
+            continue   # a clause body written by the 'user': the library called it with what it had
         if m.group(2).startswith(os.path.join(ROOT, 'sim') + '/') and 'world.hpp' not in m.group(2):
             # the innermost source frame is harness code: a harness bug, never a verdict
             return 'harness', re.sub(r'<.*', '', m.group(1)).split('(')[0], os.path.basename(m.group(2))
@@ -420,7 +423,7 @@ def crash_props(kind, frame, ffile):
 def main_threads(prop, tier, seed, budget):
     """C12: Mode T under ThreadSanitizer (simT) and, in the thorough tier, the same seeds under ASan (simTa)."""
     t_start = time.time()
-    build()
+    build(('simT', 'simTa') if tier == 'thorough' else ('simT',))
     t_built = time.time()
     outdir = os.path.join(ROOT, 'replays', 'tmp', prop)
     shutil.rmtree(outdir, ignore_errors=True)
@@ -573,8 +576,8 @@ def main_threads(prop, tier, seed, budget):
                         'the reference model and the sub-step decomposition of expectation creation / mock destruction (DESIGN.md 3.6)',
                         'sampling, not proof'],
     }
-    os.makedirs(os.path.join(ROOT, 'evidence'), exist_ok=True)
-    with open(os.path.join(ROOT, 'evidence', prop + '.json'), 'w') as f:
+    os.makedirs(EVID, exist_ok=True)
+    with open(os.path.join(EVID, prop + '.json'), 'w') as f:
         json.dump(evidence, f, indent=1)
     for l in out_lines:
         print(l)
@@ -597,7 +600,7 @@ def main():
         main_threads(prop, tier, seed, args.budget if args.budget is not None else BUDGET_S[tier])
         return
     t_start = time.time()
-    build()
+    build(('simC',) if prop == 'C20' else ('simH',))
     t_built = time.time()
     binary = os.path.join(BUILD, 'simC' if prop == 'C20' else 'simH')
     global CURRENT_PROP
@@ -860,8 +863,8 @@ def main():
             'sampling, not proof: a clean batch is evidence only',
         ],
     }
-    os.makedirs(os.path.join(ROOT, 'evidence'), exist_ok=True)
-    with open(os.path.join(ROOT, 'evidence', prop + '.json'), 'w') as f:
+    os.makedirs(EVID, exist_ok=True)
+    with open(os.path.join(EVID, prop + '.json'), 'w') as f:
         json.dump(evidence, f, indent=1)
     for l in out_lines:
         print(l)
